@@ -29,6 +29,7 @@ macro_rules! avl_runner {
             let okp = move |a: usize| a % halign == 0 && (a + hdr) % nalign == 0;
             let mut phase = 0usize;
             let mut buf;
+            let mut keep_init = false;
             if let Some(raw) = kv(&toks, "raw") {
                 let bytes = unhex(&raw);
                 buf = Buf::new(bytes.len(), 32, fill, phase, &okp);
@@ -39,6 +40,7 @@ macro_rules! avl_runner {
                 buf = Buf::new(hdr + nrec * rec, 32, fill, phase, &okp);
                 let mut t = $Mut::<K, V>::from_bytes_mut(buf.bytes_mut());
                 t.initialize(cap as $idx);
+                keep_init = kv(&toks, "keep").map(|x| x == "1").unwrap_or(false) && mode == "persistent";
             }
             // key universe
             let mut uni: Vec<i128> = vec![];
@@ -68,6 +70,14 @@ macro_rules! avl_runner {
                 }};
             }
             let mut h: Option<$Mut<'static, K, V>> = None;
+            if keep_init {
+                // keep=1: the handle that initialises the tree stays in use (a tree initialised with a
+                // capacity smaller than its buffer keeps that capacity until a view is opened anew)
+                let cap = kvn(&toks, "cap");
+                let mut t = $Mut::<K, V>::from_bytes_mut(unsafe { buf.static_mut() });
+                t.initialize(cap as $idx);
+                h = Some(t);
+            }
             out.push_str(&format!("case {}\n", case.id));
             for (i, op) in case.ops.iter().enumerate() {
                 tick();
@@ -150,6 +160,12 @@ macro_rules! avl_runner {
                                     "full" => (if $t.is_full() { "T" } else { "F" }).to_string(),
                                     "capq" => format!("#{}", $t.capacity()),
                                     "openro" => "U".to_string(),
+                                    "dbg" => {
+                                        // the only hand-written Debug impl of the collections: the header
+                                        let a: &$Alloc = bytemuck::from_bytes(&buf.bytes()[..std::mem::size_of::<$Alloc>()]);
+                                        let s = format!("{:?}", a);
+                                        if s.is_empty() { "E".to_string() } else { "U".to_string() }
+                                    }
                                     other => panic!("unknown op {}", other),
                                 }
                             }};
